@@ -155,6 +155,18 @@ class _Gen:
         self.expect(not others, '__init__: further assignment to self.lazyLoad: %s' % (others and U(others[0])))
         self.emit(uc[0], 'g_cache_forces_lazy', ': bool', 'true' if 'self.lazyLoad = True' in body else 'false',
                   note='(use_cache also sets self.lazyLoad)')
+        # region-restricted loading: the two constructor options are stored as given, before the early return, and nothing
+        # else in the class assigns them (fetchChromosome / read_cached read self.region_start / self.region_end)
+        for opt_ in ('region_start', 'region_end'):
+            self.expect(opt_ in [a.arg for a in f.args.args], '__init__: no parameter %s' % opt_)
+            st_ = [i for i, st in enumerate(top) if U(st) == 'self.%s = %s' % (opt_, opt_)]
+            self.expect(len(st_) == 1 and st_[0] < ret[0], '__init__: expected one unconditional `self.%s = %s` before the early return' % (opt_, opt_))
+            for n in ast.walk(cls[0]):
+                tg = n.targets if isinstance(n, ast.Assign) else ([n.target] if isinstance(n, (ast.AugAssign, ast.AnnAssign)) else [])
+                for t_ in tg:
+                    for sub in ast.walk(t_):
+                        if isinstance(sub, ast.Attribute) and sub.attr == opt_ and n is not top[st_[0]]:
+                            raise Untranslatable('self.%s is assigned a second time (line %d)' % (opt_, n.lineno))
         # eager load:  if uglyMode: ... else: if not lazyLoad: self.fetchChromosome(vcffile, chrom)
         last = top[-1]
         self.expect(isinstance(last, ast.If) and U(last.test) == 'uglyMode' and len(self.plain(last.orelse)) == 1, '__init__: expected final `if uglyMode: ... else: ...`')
@@ -482,6 +494,68 @@ def cfg_val(cf):
             1 if cf['lazy'] else 0, 1 if cf['cache'] else 0, opt(cf['chrom'], fw.to_val)]
 
 
+# ---- region-restricted loading: a run's settings may carry 'rstart' / 'rend' (region_start / region_end; absent = None)
+MAXPOS = 2 ** 31 - 1
+
+
+def win_of(cf):
+    return (cf.get('rstart'), cf.get('rend'))
+
+
+def has_window(cf):
+    return win_of(cf) != (None, None)
+
+
+def case_windowed(case):
+    return any(has_window(run['cfg']) for run in case['history'])
+
+
+def xcfg_val(cf):
+    """Model/C18x.dec_xcfg: the six settings of cfg_val followed by [region_start] / [] and [region_end] / []"""
+    return cfg_val(cf) + [opt(cf.get('rstart')), opt(cf.get('rend'))]
+
+
+def win_bounds(w):
+    return (0 if w[0] is None else w[0], MAXPOS if w[1] is None else w[1])
+
+
+def win_valid(w):
+    """HTSFile.parse_region accepts the coordinates (Model/C18x.win_valid)"""
+    lo, hi = win_bounds(w)
+    return 0 <= lo < MAXPOS and hi <= MAXPOS and lo <= hi
+
+
+def rec_in_win(w, r):
+    """the tabix iterator returns the record: [pos-1, pos-1+len(REF)) meets [lo, hi)  (Model/C18x.rec_in_win)"""
+    lo, hi = win_bounds(w)
+    return lo < hi and r['pos'] - 1 < hi and lo < r['pos'] - 1 + len(r['ref'])
+
+
+def in_win(w, p):
+    lo, hi = win_bounds(w)
+    return lo <= p < hi
+
+
+def veff(vcf, cf):
+    """the records a run can see (Model/C18x.veff): everything for the eager load of all contigs (v.fetch(None, start,
+    stop) ignores the coordinates), nothing under unacceptable coordinates, else the records overlapping the window"""
+    w = win_of(cf)
+    if w == (None, None) or (not is_lazy(cf) and cf['chrom'] is None):
+        return vcf
+    if not win_valid(w):
+        return dict(vcf, records=[])
+    return dict(vcf, records=[r for r in vcf['records'] if rec_in_win(w, r)])
+
+
+def hist_inside(case):
+    """every query of every run lies inside that run's (acceptable) window (Model/C18x.hist_inside)"""
+    for run in expand_case(case)['history']:
+        w = win_of(run['cfg'])
+        if not win_valid(w) or not all(in_win(w, q[2]) for q in run['queries']):
+            return False
+    return True
+
+
 # ---- getAllele(reads): an operation [2, reads]; a read = {'chrom','pos','seq','cigar'} or None
 def aligned_pairs(read):
     """pysam's get_aligned_pairs(matches_only=True) for M/=/X, I, D, N, S operations"""
@@ -543,13 +617,14 @@ def expand_case(case):
     return {'vcf': case['vcf'], 'history': [expand_run(run)[0] for run in case['history']]}
 
 
-def case_val(case):
+def case_val(case, x=False):
+    """model input; x=True: settings with the window fields (modes 10.. of Model/C18x.run_C18x)"""
     case = expand_case(case)
     v = case['vcf']
     recs = [[fw.to_val(r['chrom']), r['pos'], fw.to_val(r['ref']), [fw.to_val(a) for a in r['alts']],
              [[opt(a, fw.to_val) for a in g] for g in rec_gts(r)]] for r in v['records']]
-    hist = [[cfg_val(run['cfg']), [[q[0], fw.to_val(q[1]), q[2]] + ([fw.to_val(q[3])] if q[0] == 0 else [])
-                                   for q in run['queries']]] for run in case['history']]
+    hist = [[(xcfg_val if x else cfg_val)(run['cfg']), [[q[0], fw.to_val(q[1]), q[2]] + ([fw.to_val(q[3])] if q[0] == 0 else [])
+                                                         for q in run['queries']]] for run in case['history']]
     return [[[fw.to_val(c) for c in v['contigs']], [fw.to_val(s) for s in v['samples']], recs], hist]
 
 
@@ -620,6 +695,12 @@ def spec_run_raw(vcf, run):
     cf = run['cfg']
     if not is_lazy(cf) and cf['chrom'] is not None and cf['chrom'] not in vcf['contigs']:
         return [-1]
+    if has_window(cf):
+        # Model/C18x.spec_run_x: the eager load of one contig raises for unacceptable coordinates; otherwise the
+        # specification below on the records the run can see
+        if not is_lazy(cf) and cf['chrom'] is not None and not win_valid(win_of(cf)):
+            return [-1]
+        vcf = veff(vcf, cf)
     out = []
     for q in run['queries']:
         c, p = q[1], q[2]
@@ -667,7 +748,8 @@ def name_ok(s):
 
 
 def precondition(case):
-    """python transcription of  vcf_ok && hist_ok  (Model/C18.v)"""
+    """python transcription of  vcf_ok && hist_ok  (Model/C18.v); for a history with windows of  vcf_ok_x && hist_ok_x
+    (Model/C18x.v) - the same conditions plus the three window clauses marked below"""
     v = case['vcf']
     if not v['samples'] or not all(name_ok(s) for s in v['samples']):
         if v['records']:
@@ -677,10 +759,17 @@ def precondition(case):
             return False
         if any(ch in '\t\n\r' for a in rec_alleles(r) for ch in a):
             return False
+    if case_windowed(case):
+        # vcf_ok_x: 1-based positions below 2^31, a non-empty REF
+        if not all(1 <= r['pos'] <= MAXPOS and len(r['ref']) >= 1 for r in v['records']):
+            return False
     keys = []
     for run in expand_case(case)['history']:
         for q in run['queries']:
             if q[2] < 0:
+                return False
+            # qpos_ok: a run through the cache is not asked about positions before its region_start
+            if run['cfg']['cache'] and run['cfg'].get('rstart') is not None and q[2] < run['cfg']['rstart']:
                 return False
             keys.append((run['cfg'], q[1]))
     seen = {}
@@ -688,6 +777,9 @@ def precondition(case):
         n = cache_name(cf, c)
         for cf2, c2 in seen.get(n, []):
             if not (c == c2 and same_sem(cf, cf2)):
+                return False
+            # names_ok_x: two runs going through one cache file use the same window
+            if cf['cache'] and cf2['cache'] and win_of(cf) != win_of(cf2):
                 return False
         seen.setdefault(n, []).append((cf, c))
     return True
@@ -1014,6 +1106,197 @@ def exhaustive_cases(rng, limit=None):
     return cases
 
 
+
+# ----------------------------------------------------------------------------- region-restricted loading: generators
+def gen_window_vcf(rng, big=False):
+    """gen_vcf plus records whose REF is several bases long yet informative (every selected genotype carries a single
+    base ALT), so that a record starting before region_start reaches into the window"""
+    vcf = gen_vcf(rng, big)
+    recs = vcf['records']
+    for c in vcf['contigs']:
+        for _ in range(rng.choice([0, 1, 1, 2])):
+            ref = ''.join(rng.choice(BASES) for _ in range(rng.choice([2, 3, 4, 5])))
+            alts = rng.sample([b for b in BASES if b != ref[0]], 2)
+            gts = [[rng.choice([1, 2])] * rng.choice([1, 2]) for _ in vcf['samples']]
+            if len(gts) > 1:
+                gts[0] = [1] * len(gts[0]); gts[1] = [2] * len(gts[1])
+            recs.append({'chrom': c, 'pos': rng.randint(1, 12 if not big else 40), 'ref': ref, 'alts': alts, 'gts': gts,
+                         'sep': rng.choice(['|', '/'])})
+    order = {c: i for i, c in enumerate(vcf['contigs'])}
+    recs.sort(key=lambda r: (order[r['chrom']], r['pos']))          # stable: tabix wants sorted positions
+    return vcf
+
+
+def gen_window(rng, vcf, kind=None):
+    """(region_start, region_end), boundary-biased: edges on / next to record positions (0-based), open ends, empty windows,
+    and coordinates pysam refuses (start > stop, negative, beyond 2^31 - 1)"""
+    edges = sorted(set(r['pos'] - 1 + d for r in vcf['records'] for d in (-1, 0, 1, len(r['ref']) - 1, len(r['ref']))) | {0, 14})
+    edges = [e for e in edges if e >= 0] or [0, 5]
+    kind = kind or rng.choice(['both'] * 9 + ['start', 'start', 'end', 'end', 'empty', 'invalid', 'wide'])
+    if kind == 'start':
+        return (rng.choice(edges), None)
+    if kind == 'end':
+        return (None, rng.choice(edges))
+    if kind == 'empty':
+        e = rng.choice(edges)
+        return (e, e)
+    if kind == 'wide':
+        return (0, rng.choice([1000, 2 ** 29, MAXPOS]))
+    if kind == 'invalid':
+        a, b = rng.choice(edges), rng.choice(edges)
+        return rng.choice([(max(a, b) + 1, min(a, b)), (-1, b), (-rng.randint(1, 5), None), (None, -1), (a, MAXPOS + 1),
+                           (MAXPOS, None), (MAXPOS, MAXPOS)])
+    a, b = rng.choice(edges), rng.choice(edges)
+    return (min(a, b), max(a, b) + rng.choice([0, 1, 1, 2]))
+
+
+def gen_window_queries(rng, vcf, w, n=None, floor=None):
+    """lookups around the edges of the window and at record starts; floor: no position below it"""
+    contigs = list(vcf['contigs']) + (['chrZ'] if rng.random() < 0.3 else [])
+    lo, hi = win_bounds(w)
+    near = [x for x in (lo - 1, lo, lo + 1, hi - 1, hi, hi + 1) if 0 <= x < 60]
+    qs = []
+    cur = rng.choice(contigs)
+    for _ in range(n or rng.randint(5, 14)):
+        if rng.random() < 0.35:
+            cur = rng.choice(contigs)
+        here = [r for r in vcf['records'] if r['chrom'] == cur]
+        k = rng.random()
+        if here and k < 0.55:
+            r = rng.choice(here)
+            p = r['pos'] - 1
+            b = rng.choice(rec_alleles(r) + list(BASES)) if rng.random() < 0.9 else rng.choice(['N', 'AT'])
+        elif near and k < 0.85:
+            p = rng.choice(near)
+            at = [r for r in here if r['pos'] - 1 == p]
+            b = rng.choice(rec_alleles(rng.choice(at))) if at else rng.choice(BASES)
+        else:
+            p = rng.randint(0, 14)
+            b = rng.choice(BASES)
+        if floor is not None and p < floor:
+            p = floor + rng.randint(0, 2)
+        if rng.random() < 0.2:
+            qs.append([1, cur, p])
+        elif rng.random() < 0.04:
+            qs.append([2, gen_reads(rng, vcf)])
+        else:
+            qs.append([0, cur, p, b])
+    return qs
+
+
+def with_window(cf, w):
+    return dict(cf, rstart=w[0], rend=w[1])
+
+
+def gen_window_case(rng, big=False):
+    vcf = gen_window_vcf(rng, big)
+    while not vcf['records']:
+        vcf = gen_window_vcf(rng, big)
+    style = rng.random()
+    hist = []
+    if style < 0.55:
+        # ONE setting and ONE window under every loading mode (the eager load of one contig included), the cache twice
+        cf = gen_cfg(rng, vcf)
+        w = gen_window(rng, vcf, kind=rng.choice([None] * 4 + ['both']))
+        # runs through the cache are (mostly) not asked about positions before region_start: there the run that writes the
+        # cache and the runs that read it differ (window:long-REF-before-region_start)
+        floor = w[0] if (w[0] is not None and w[0] >= 0 and rng.random() < 0.85) else None
+        qs = gen_window_queries(rng, vcf, w)
+        combos = [(False, False, None), (False, False, 'one'), (True, False, None), (False, True, None), (True, True, None), (False, True, None)]
+        rng.shuffle(combos)
+        for lz, ca, ch in combos[:rng.choice([4, 5, 6])]:
+            c2 = with_window(dict(cf, lazy=lz, cache=ca, chrom=(rng.choice(vcf['contigs']) if ch else cf['chrom'])), w)
+            q2 = qs if rng.random() < 0.75 else gen_window_queries(rng, vcf, w)
+            if ca and floor is not None:
+                q2 = [q for q in q2 if q[0] != 2 and q[2] >= floor] or [[1, vcf['contigs'][0], floor]]
+            hist.append({'cfg': c2, 'queries': q2})
+    elif style < 0.78:
+        # one cache directory, several windows: a writer, then readers under the same, a wider, a narrower or no window
+        cf = gen_cfg(rng, vcf); cf['cache'] = True
+        w = gen_window(rng, vcf, kind=rng.choice(['both', 'both', 'start', 'end', None]))
+        if rng.random() < 0.3:
+            w = (None, None)
+        hist.append({'cfg': with_window(cf, w), 'queries': gen_window_queries(rng, vcf, w)})
+        for _ in range(rng.randint(1, 3)):
+            k = rng.random()
+            w2 = w if k < 0.35 else ((None, None) if k < 0.45 else gen_window(rng, vcf))
+            c2 = dict(cf, cache=rng.random() < 0.8, lazy=rng.random() < 0.5)
+            hist.append({'cfg': with_window(c2, w2), 'queries': gen_window_queries(rng, vcf, w2, floor=(w2[0] if w2[0] is not None and w2[0] >= 0 and rng.random() < 0.6 else None))})
+    else:
+        for _ in range(rng.randint(1, 4)):
+            w = gen_window(rng, vcf) if rng.random() < 0.85 else (None, None)
+            hist.append({'cfg': with_window(gen_cfg(rng, vcf), w), 'queries': gen_window_queries(rng, vcf, w)})
+    return {'vcf': vcf, 'history': hist}
+
+
+def window_small_scope(rng, limit=None):
+    """one contig with a 4-base REF record at 5 (informative), SNVs at 10 and 12: EVERY window with edges in
+    {None, 0..13} x the loading modes, every position 0..13 asked (has_location and getAllelesAt)"""
+    vcf = {'contigs': ['chr1', 'chr2'], 'samples': ['S1', 'S2'],
+           'records': [{'chrom': 'chr1', 'pos': 5, 'ref': 'ACGT', 'alts': ['C', 'G'], 'gts': [[1, 1], [2, 2]], 'sep': '|'},
+                       {'chrom': 'chr1', 'pos': 10, 'ref': 'A', 'alts': ['T'], 'gts': [[0, 0], [1, 1]], 'sep': '|'},
+                       {'chrom': 'chr1', 'pos': 12, 'ref': 'C', 'alts': ['T'], 'gts': [[0], [1]], 'sep': '|'},
+                       {'chrom': 'chr2', 'pos': 10, 'ref': 'G', 'alts': ['A'], 'gts': [[0, 0], [1, 1]], 'sep': '|'}]}
+    qs = []
+    for p_ in range(0, 14):
+        qs.append([1, 'chr1', p_])
+        qs.append([0, 'chr1', p_, {4: 'C', 9: 'A', 11: 'T'}.get(p_, 'A')])
+    qs += [[0, 'chr2', 9, 'A'], [1, 'chr2', 9]]
+    edges = [None] + list(range(0, 14))
+    wins = [(a, b) for a in edges for b in edges if (a, b) != (None, None)]
+    if limit is not None and len(wins) > limit:
+        wins = rng.sample(wins, limit)
+    base = {'phased': True, 'select': None, 'ignore': None, 'chrom': None}
+    cases = []
+    for w in wins:
+        hist = []
+        # runs through the cache are asked from region_start on (below it the writing and the reading run differ)
+        qc = [q for q in qs if w[0] is None or q[2] >= w[0]]
+        for lz, ca, ch in ((False, False, None), (False, False, 'chr1'), (True, False, None), (False, True, None), (False, True, None), (True, True, None)):
+            hist.append({'cfg': with_window(dict(base, lazy=lz, cache=ca, chrom=ch), w), 'queries': qc if ca else qs})
+        cases.append({'vcf': vcf, 'history': hist})
+    return cases
+
+
+def gen_cache_window(rng):
+    return rng.choice([(None, None), (None, None), (rng.choice([-1, 0, 3, 7]), None), (None, rng.choice([-1, 0, 7, 12])),
+                       (rng.choice([0, 3, 7]), rng.choice([3, 7, 12, 105])), (12, 3)])
+
+
+# the four ways in which the loading modes disagree for ONE window on the unchanged tree (Props/C18.v, C18_window_*_refuted;
+# fixes/C18-D36): (key, what, case, (run a, run b) whose answers must be equal / None = compare run 1 with the VCF)
+def _wrun(lz, ca, w, qs, chrom=None):
+    return {'cfg': {'phased': True, 'select': None, 'ignore': None, 'lazy': lz, 'cache': ca, 'chrom': chrom, 'rstart': w[0], 'rend': w[1]},
+            'queries': qs}
+
+
+W_VCF = {'contigs': ['chr1'], 'samples': ['S1', 'S2'],
+         'records': [{'chrom': 'chr1', 'pos': 5, 'ref': 'ACGT', 'alts': ['C', 'G'], 'gts': [[1, 1], [2, 2]], 'sep': '|'},
+                     {'chrom': 'chr1', 'pos': 10, 'ref': 'A', 'alts': ['T'], 'gts': [[0, 0], [1, 1]], 'sep': '|'},
+                     {'chrom': 'chr1', 'pos': 20, 'ref': 'C', 'alts': ['T'], 'gts': [[0, 0], [1, 1]], 'sep': '|'},
+                     {'chrom': 'chr1', 'pos': 30, 'ref': 'C', 'alts': ['T'], 'gts': [[0, 0], [1, 1]], 'sep': '|'}]}
+WINDOW_FINDINGS = [
+    ('window:cache-file-shared-between-windows',
+     'use_cache=True, region [0,20) then region [20,40) on the same VCF: the second run is served chr1.tsv.gz written under the first '
+     'window (the file name does not mention the window) and getAllelesAt("chr1", 29, "T") - inside its own window - returns None; '
+     'the VCF (and a lazy run with the same window) says {S2}',
+     {'vcf': W_VCF, 'history': [_wrun(False, True, (0, 20), [[0, 'chr1', 9, 'A']]), _wrun(False, True, (20, 40), [[0, 'chr1', 29, 'T']]),
+                                _wrun(True, False, (20, 40), [[0, 'chr1', 29, 'T']])]}, (1, 2)),
+    ('window:region_end-inclusive-in-read_cached',
+     'after an unrestricted use_cache run wrote chr1.tsv.gz, use_cache with region [9,19) answers getAllelesAt("chr1", 19, "T") = {S2} '
+     '(read_cached stops at position > region_end) while lazyLoad with the same region answers None (VariantFile.fetch stop is exclusive)',
+     {'vcf': W_VCF, 'history': [_wrun(False, True, (None, None), [[0, 'chr1', 19, 'T']]), _wrun(False, True, (9, 19), [[0, 'chr1', 19, 'T']]),
+                                _wrun(True, False, (9, 19), [[0, 'chr1', 19, 'T']])]}, (1, 2)),
+    ('window:long-REF-before-region_start',
+     'use_cache with region [6,20) twice: the run that writes the cache loads the record chr1:5 ACGT>C,G (its REF reaches into the window) '
+     'and answers getAllelesAt("chr1", 4, "C") = {S1}; the run that reads the cache skips position 4 < region_start and answers None',
+     {'vcf': W_VCF, 'history': [_wrun(False, True, (6, 20), [[0, 'chr1', 4, 'C']]), _wrun(False, True, (6, 20), [[0, 'chr1', 4, 'C']])]}, (0, 1)),
+    ('window:eager-load-of-all-contigs-ignores-region',
+     'lazyLoad=False, use_cache=False, chrom=None with region [9,20): v.fetch(None, start, stop) ignores the coordinates, '
+     'getAllelesAt("chr1", 29, "T") = {S2}; lazyLoad=True with the same region answers None',
+     {'vcf': W_VCF, 'history': [_wrun(False, False, (9, 20), [[0, 'chr1', 29, 'T']]), _wrun(True, False, (9, 20), [[0, 'chr1', 29, 'T']])]}, (0, 1)),
+]
+
 # ----------------------------------------------------------------------------- several resolver objects in one process
 def ctor_ok(vcf, cf):
     return is_lazy(cf) or cf['chrom'] is None or cf['chrom'] in vcf['contigs']
@@ -1191,7 +1474,8 @@ def show_answer(a):
 
 def flags(cf):
     return 'lazyLoad=%s use_cache=%s phased=%s select_samples=%r ignore_conversions=%r chrom=%r' % (
-        cf['lazy'], cf['cache'], cf['phased'], cf['select'], cf['ignore'], cf['chrom'])
+        cf['lazy'], cf['cache'], cf['phased'], cf['select'], cf['ignore'], cf['chrom']) + (
+        ' region_start=%r region_end=%r' % win_of(cf) if has_window(cf) else '')
 
 
 def canon_cache(files):
@@ -1219,6 +1503,10 @@ class Prop(fw.PropBase):
         'modelled not verified: pysam/htslib VCF parsing and tabix fetch (a record = chrom, pos, ref, alts, per-sample '
         'alleles in header order; fetch(c) = the records of contig c in file order, ValueError for a contig the file does '
         'not have) - the impl runner reports pysam\'s view of every generated record and K compares it with the abstraction',
+        'modelled not verified: VariantFile.fetch(contig, start, stop) = the records of the contig that overlap the 0-based half-open '
+        'window (None = 0 / 2^31-1), ValueError for start < 0, start >= 2^31-1, stop > 2^31-1 or start > stop (after the contig test), '
+        'fetch(None, start, stop) = the whole file (Model/C18x.v: win_valid, rec_in_win, vwin) - tied by K on windows whose edges '
+        'sit on / next to record starts and REF ends',
         'modelled not verified: gzip + text codec of the cache files (content = sequence of code points), os.rename, os.path.exists; '
         'python dict/set/defaultdict semantics (association lists, sorted lists); int() restricted to [+-]?[0-9]+',
         'python transcription of the Coq specification in tools/c18.py (used by search()); cross-checked against the Coq '
@@ -1226,13 +1514,27 @@ class Prop(fw.PropBase):
     ]
     ASSUMPTIONS = [
         'the VCF is readable and indexed (uglyMode fallback and vcffile=None not covered), has at least one sample column, '
-        'and every record contig is declared in the header; region_start/region_end are None',
+        'and every record contig is declared in the header',
+        'region_start / region_end are None or integers; records have 1-based positions below 2^31 (below 2^29 in the generated '
+        'files, the reach of a .tbi index), a non-empty REF and no INFO/END (a record occupies [pos-1, pos-1+len(REF)))',
+        'windows (C18_window_history_spec): two runs of one history that go through the same cache file use the same window, and '
+        'a run through the cache is not asked about positions before its region_start - outside these two conditions the '
+        'loading modes really disagree (C18_window_*_refuted, fixes/C18-D36); measured as window.precondition_hit_rate',
         'queried positions are >= 0 (position -1 holds the loader\'s sentinel in lazy mode)',
         'sample names are non-empty without blanks or commas; alleles contain no tab/newline (needed by the cache line format)',
         'no two different (contig, settings) pairs used in one history map to the same cache file name (e.g. contig "chr1_S1" '
         'without selection and contig "chr1" with selection S1 do) - precondition names_ok, measured as precondition_hit_rate',
         'the VCF file is not modified between runs sharing a cache directory; cache writes succeed or leave no file',
     ]
+
+    def replay_known(self, finding):
+        """the recorded disagreements between loading modes under one window (WINDOW_FINDINGS): True while the real class
+        still shows them"""
+        for f in WINDOW_FINDINGS:
+            if f[0] == finding.get('key'):
+                r = fw.run_impl('impl_c18.py', {'cases': [f[2]]})['cases'][0]
+                return (not r.get('error')) and self.finding_shows(f, r)
+        return True
 
     def regen(self):
         try:
@@ -1254,7 +1556,9 @@ class Prop(fw.PropBase):
             for fn in sorted(os.listdir(d)):
                 if fn.endswith('.json'):
                     out.append(json.load(open(os.path.join(d, fn))))
-        return out
+        # cases with region_start / region_end belong to the window stream (Model/C18x, mode 10)
+        self.window_corpus = [c for c in out if case_windowed(c)]
+        return [c for c in out if not case_windowed(c)]
 
     def make_cases(self):
         quick = self.tier == 'quick'
@@ -1265,6 +1569,17 @@ class Prop(fw.PropBase):
         rnd += [gen_getallele_case(self.rng) for _ in range(40 if quick else 800)]
         exh = exhaustive_cases(self.rng, limit=(160 if quick else None))
         return corpus, rnd, exh
+
+    def make_window_cases(self):
+        """region-restricted loading: a stream of its own (drawn after all the others, so those are unchanged)"""
+        quick = self.tier == 'quick'
+        rnd = [gen_window_case(self.rng) for _ in range(170 if quick else 7000)]
+        rnd += [gen_window_case(self.rng, big=True) for _ in range(4 if quick else 150)]
+        exh = window_small_scope(self.rng, limit=(24 if quick else None))
+        known = [dict(f[2]) for f in WINDOW_FINDINGS]
+        if getattr(self, 'window_corpus', None) is None:
+            self.corpus_cases()
+        return known + self.window_corpus + rnd, exh
 
     # ---------------------------------------------------------------- K
     def correspondence(self):
@@ -1475,6 +1790,7 @@ class Prop(fw.PropBase):
             self.cov['vm_compute_crosscheck'] = {'cases': len(idx), 'mismatches': nmm}
             if not ok:
                 raise fw.Broken('extraction', 'vm_compute and extracted model disagree: ' + log[-800:])
+        self.window_stream(dis)
         self.cov['disagreements'] = len(dis)
         k = [i for i in range(len(cases)) if pre[i] and not res[i].get('error')][:3]
         self.cov['samples'] = [{'vcf': cases[i]['vcf'], 'run': cases[i]['history'][-1], 'impl': res[i]['runs'][-1],
@@ -1482,12 +1798,192 @@ class Prop(fw.PropBase):
         if dis:
             self.dis = dis
             d0 = dict(dis[0])
+            if 'wcase' in d0:
+                d0['input'] = self.wcases[d0['wcase']]
             if 'case' in d0:
                 d0['input'] = cases[d0['case']]
             if 'group' in d0:
                 d0['input'] = groups[d0['group']]
             raise fw.Broken('correspondence', '%d disagreements (%s); first: %s'
                             % (len(dis), sorted(set(d['kind'] for d in dis)), json.dumps(d0, default=str)[:1500]))
+
+
+    # ---------------------------------------------------------------- K: region-restricted loading
+    def window_stream(self, dis):
+        """histories whose runs carry region_start / region_end: real class against Model/C18x (mode 10, answers and
+        cache files), the specification spec_run_x (python transcription = Coq mode 12) on the implementation's answers
+        under the precondition of C18_window_history_spec, the recorded mode disagreements replayed as part of the stream"""
+        rnd, exh = self.make_window_cases()
+        wcases = rnd + exh
+        self.wcases = wcases
+        t0 = time.time()
+        wres = run_impl_cases(wcases)
+        self.cov['seconds_running_the_real_class'] = round(self.cov.get('seconds_running_the_real_class', 0) + time.time() - t0, 1)
+        self.wres = wres
+        # search() looks at both streams
+        self.cases = list(self.cases) + wcases
+        self.impl_res = list(self.impl_res) + wres
+        pre = [precondition(c) for c in wcases]
+        inside = [hist_inside(c) for c in wcases]
+        spec = [[spec_run(c['vcf'], run) for run in c['history']] for c in wcases]
+        nq = 0
+        h_kind, h_where, h_mode = {}, {}, {}
+        distinct = set()
+        shared = served_w = 0
+        for c in wcases:
+            writers = {}
+            for run in c['history']:
+                xr = expand_run(run)[0]
+                cf = xr['cfg']
+                w = win_of(cf)
+                kind = ('none' if w == (None, None) else 'unacceptable' if not win_valid(w) else
+                        'start-only' if w[1] is None else 'end-only' if w[0] is None else 'empty' if w[0] == w[1] else 'both')
+                h_kind[kind] = h_kind.get(kind, 0) + 1
+                m = ('eager-all' if not is_lazy(cf) and cf['chrom'] is None else 'eager-one' if not is_lazy(cf) else
+                     ('cache' if cf['cache'] else '') + ('+lazy' if cf['lazy'] else ''))
+                h_mode[m] = h_mode.get(m, 0) + 1
+                lo, hi = win_bounds(w)
+                seen_c = set()
+                for q in xr['queries']:
+                    nq += 1
+                    p_ = q[2]
+                    at = [r for r in c['vcf']['records'] if r['chrom'] == q[1] and r['pos'] - 1 == p_]
+                    where = ('no-window' if kind == 'none' else 'unacceptable' if kind == 'unacceptable' else
+                             'first' if p_ == lo and p_ < hi else 'last' if p_ == hi - 1 and p_ >= lo else 'inside' if lo <= p_ < hi else
+                             'at-region_end' if p_ == hi else 'before(long REF reaches in)' if p_ < lo and any(rec_in_win(w, r) for r in at) else
+                             'before' if p_ < lo else 'beyond')
+                    h_where[where] = h_where.get(where, 0) + 1
+                    if at and kind != 'none':
+                        distinct.add(fw.canon_hash([repr([(r['ref'], tuple(r['alts']), tuple(map(tuple, r['gts']))) for r in at]),
+                                                    repr(sorted(cf.items(), key=str)), repr(q[2:]), q[0], repr(c['vcf']['samples']), where]))
+                    if cf['cache'] and cacheable(q[1]) and q[1] not in seen_c:
+                        seen_c.add(q[1])
+                        n = cache_name(cf, q[1])
+                        if n in writers:
+                            served_w += 1
+                            if writers[n] != w:
+                                shared += 1
+                        elif q[1] in c['vcf']['contigs'] and win_valid(w):
+                            writers[n] = w
+        # what the generated records and settings look like (the shapes the site rules have a defined behaviour for)
+        h_rec, h_selx = {}, {}
+        for c in wcases:
+            for r_ in c['vcf']['records']:
+                for kd, yes in (('multi-allelic ALT list', len(r_['alts']) > 1), ('no ALT', not r_['alts']),
+                                ('REF longer than one base', len(r_['ref']) > 1), ('multi-base or symbolic ALT', any(len(a) != 1 or a == '*' for a in r_['alts'])),
+                                ('a missing allele (.)', any(a is None for g_ in r_['gts'] for a in g_)), ('a haploid call', any(len(g_) == 1 for g_ in r_['gts'])),
+                                ('a triploid call', any(len(g_) == 3 for g_ in r_['gts'])), ('unphased separator', r_.get('sep') == '/'),
+                                ('same position as another record', sum(1 for x in c['vcf']['records'] if x['chrom'] == r_['chrom'] and x['pos'] == r_['pos']) > 1)):
+                    if yes:
+                        h_rec[kd] = h_rec.get(kd, 0) + 1
+            for run in c['history']:
+                sel = run['cfg']['select']
+                kd = ('None' if sel is None else 'empty list' if not sel else 'with a name the VCF does not have' if set(sel) - set(c['vcf']['samples'])
+                      else 'with a repeated name' if len(set(sel)) < len(sel) else 'all samples' if set(sel) == set(c['vcf']['samples']) else 'proper subset')
+                h_selx[kd] = h_selx.get(kd, 0) + 1
+        # the abstraction of the generated VCFs (pysam's view) for this stream too
+        nspec = 0
+        for i, (c, r, sp, ok) in enumerate(zip(wcases, wres, spec, pre)):
+            if r.get('error'):
+                dis.append({'kind': 'impl-runner (window)', 'wcase': i, 'error': r['error']})
+                continue
+            mine = [[x['chrom'], x['pos'], x['ref'], list(x['alts']), rec_gts(x)] for x in c['vcf']['records']]
+            if mine != r['view'] or r['samples'] != c['vcf']['samples'] or r['contigs'] != c['vcf']['contigs']:
+                dis.append({'kind': 'vcf-abstraction (window)', 'wcase': i, 'mine': mine[:3], 'pysam': r['view'][:3]})
+            if not ok:
+                continue
+            # the statement itself (C18_window_history_spec) on the implementation's answers
+            for j, (run, got) in enumerate(zip(c['history'], r['runs'])):
+                g = canon_impl_run(got)
+                nspec += len(g)
+                if g != sp[j]:
+                    dis.append({'kind': 'impl-vs-spec (window)', 'wcase': i, 'run': j})
+        # the recorded disagreements between the modes must still be what the model says they are (compared below with
+        # the model like every other case); here: do they still show on the real class?
+        still = []
+        for n, f in enumerate(WINDOW_FINDINGS):
+            r = wres[n]
+            if not r.get('error') and self.finding_shows(f, r):
+                still.append(f[0])
+        self.cov['window'] = {
+            'cases': len(wcases), 'recorded_mode_disagreements': len(WINDOW_FINDINGS), 'corpus_cases': len(self.window_corpus),
+            'random_cases': len(rnd) - len(WINDOW_FINDINGS) - len(self.window_corpus), 'small_scope_cases': len(exh),
+            'runs': sum(len(c['history']) for c in wcases), 'lookups': nq, 'distinct_nontrivial': len(distinct),
+            'rule': 'non-trivial = the run has a window and the queried (contig,pos) carries a VCF record; distinct by hash of (records at the '
+                    'site, all constructor settings incl. mode flags and window, query, sample header, where the position lies relative to the window)',
+            'records': sum(len(c['vcf']['records']) for c in wcases), 'histogram_record_shapes': h_rec,
+            'histogram_select_samples_per_run': h_selx,
+            'histogram_window_kind_per_run': h_kind, 'histogram_mode_per_run': h_mode, 'histogram_query_position': h_where,
+            'contig_loads_served_from_cache': served_w, 'of_these_written_under_another_window': shared,
+            'precondition_hit_rate': round(sum(pre) / max(1, len(pre)), 4),
+            'histories_with_all_queries_inside_the_window': sum(1 for a, b in zip(pre, inside) if a and b),
+            'answers_compared_with_specification': nspec,
+            'mode_disagreements_for_one_window_still_reproduced_on_the_real_class': still,
+            'small_scope': ('complete' if self.tier == 'thorough' else 'sampled') + ': 4-base REF at 5, SNVs at 10 and 12; every window with edges '
+                           'in {None,0..13} x eager-all / eager-one / lazy / cache (write) / cache (read) / lazy+cache, every position 0..13',
+        }
+        self.cov['evaluations'] += nq
+        self.cov['distinct_nontrivial'] += len(distinct)
+        self.cov['answers_compared_with_specification'] += nspec
+        if not self.model_ok:
+            return
+        vals = [case_val(c, x=True) for c in wcases]
+        mo = fw.run_model('C18', 10, vals)
+        mpre = fw.run_model('C18', 11, vals)
+        mspec = fw.run_model('C18', 12, vals)
+        mins = fw.run_model('C18', 14, vals)
+        ntr = 0
+        for i, (c, r) in enumerate(zip(wcases, wres)):
+            if r.get('error'):
+                continue
+            if bool(mpre[i]) != pre[i]:
+                dis.append({'kind': 'python-precondition-vs-coq (window)', 'wcase': i, 'python': pre[i], 'coq': mpre[i]})
+            if bool(mins[i]) != inside[i]:
+                dis.append({'kind': 'python-hist_inside-vs-coq', 'wcase': i, 'python': inside[i], 'coq': mins[i]})
+            plans = [expand_run(run)[1] for run in c['history']]
+            fold = lambda runs: [fold_run(pl, a) for pl, a in zip(plans, runs)]
+            if fold(mspec[i]) != spec[i]:
+                dis.append({'kind': 'python-spec-vs-coq-spec (window)', 'wcase': i, 'python': spec[i], 'coq': mspec[i]})
+            got = [canon_impl_run(x) for x in r['runs']]
+            ntr += sum(len(x) for x in got)
+            mruns = fold(mo[i][0])
+            if got != mruns:
+                j = next((j for j in range(len(got)) if j >= len(mruns) or got[j] != mruns[j]), 0)
+                dis.append({'kind': 'model-vs-impl-answers (window)', 'wcase': i, 'run': j})
+            mfs = {fw.as_str(n): fw.as_str(t) for n, t in mo[i][1]}
+            if canon_cache(mfs) != canon_cache(r['cache']):
+                dis.append({'kind': 'model-vs-impl-cache-files (window)', 'wcase': i,
+                            'model': {k: mfs[k] for k in sorted(mfs)[:3]}, 'impl': {k: r['cache'][k] for k in sorted(r['cache'])[:3]}})
+            if pre[i] and mo[i][0] != mspec[i]:
+                dis.append({'kind': 'model-vs-spec (theorem instance!) (window)', 'wcase': i})
+        self.cov['window']['traces_validated_against_impl'] = ntr
+        self.cov['traces_validated_against_impl'] += ntr
+        self.cov['cache_files_compared'] += sum(len(r.get('cache', {})) for r in wres)
+        # read_cached under a window on arbitrary cache files: real method against the model's parser (mode 15)
+        texts = [gen_cache_text(self.rng) for _ in range(120 if self.tier == 'quick' else 1500)]
+        wins = [gen_cache_window(self.rng) for _ in texts]
+        small = [i for i in range(len(wcases)) if len(json.dumps(wcases[i])) < 2400] or list(range(len(wcases)))
+        idx = sorted(self.rng.sample(small, min(100, len(small))))
+        with ThreadPoolExecutor(max_workers=2) as ex:        # the real read_cached and the vm_compute cross-check side by side
+            f_rt = ex.submit(lambda: fw.run_impl('impl_c18.py', {'cache_texts': texts, 'cache_windows': [list(w) for w in wins]})['texts'])
+            f_vm = ex.submit(lambda: fw.vm_crosscheck('C18', 10, [(vals[i], mo[i]) for i in idx], run_name='run_C18x', require='Model.C18x'))
+            rt = f_rt.result()
+            ok, nmm, log = f_vm.result()
+        mt = fw.run_model('C18', 15, [[fw.to_val(t), opt(w[0]), opt(w[1])] for t, w in zip(texts, wins)])
+        for t, w, a, b in zip(texts, wins, rt, mt):
+            got = [[e[0], fw.to_val(e[1]), [fw.to_val(x) for x in e[2]]] for e in a['entries']]
+            if got != b:
+                dis.append({'kind': 'read_cached-vs-model-parser (window)', 'text': t, 'window': list(w), 'impl': a, 'model': b})
+        self.cov['window']['cache_texts_parsed_by_both_under_a_window'] = len(texts)
+        self.cov['window']['vm_compute_crosscheck'] = {'cases': len(idx), 'mismatches': nmm}
+        if not ok:
+            raise fw.Broken('extraction', 'vm_compute and extracted model disagree (window): ' + log[-800:])
+
+    def finding_shows(self, f, r):
+        """does the recorded disagreement between two runs of one window still show in the implementation's result r?"""
+        a, b = f[3]
+        runs = [canon_impl_run(x) for x in r['runs']]
+        return len(runs) > max(a, b) and runs[a] != runs[b]
 
     # ---------------------------------------------------------------- search
     def failing_all(self, case, r):
@@ -1498,12 +1994,49 @@ class Prop(fw.PropBase):
         for j, (run, got) in enumerate(zip(case['history'], r['runs'])):
             g, e = canon_impl_run(got), spec_run(case['vcf'], run)
             if g != e:
-                if g == [-1] or e == [-1] or len(g) != len(e):
+                if has_window(run['cfg']):
+                    # what the STATEMENT constrains under a window: the answers inside it, and that the modes agree
+                    if g == [-1] or e == [-1] or len(g) != len(e):
+                        if win_valid(win_of(run['cfg'])):
+                            out.append((j, None, g, e))
+                        continue
+                    k = next((k for k in range(len(e)) if g[k] != e[k] and self.window_deviation_counts(case, r, j, k, g[k])), None)
+                    if k is not None:
+                        out.append((j, k, g[k], e[k]))
+                elif g == [-1] or e == [-1] or len(g) != len(e):
                     out.append((j, None, g, e))
                 else:
                     k = next(k for k in range(len(e)) if g[k] != e[k])
                     out.append((j, k, g[k], e[k]))
         return out
+
+    def window_deviation_counts(self, case, r, j, k, got):
+        """a deviation of run j, query k from spec_run_x under a window is a violation of the statement when the position
+        lies INSIDE the (acceptable) window - there the specification is the VCF itself - or when another run of the
+        history with the same settings, window and scope answers the same query differently (mode dependence).  What every
+        mode answers alike outside the window is 'as the code defines it': a change there breaks the model tie, it is not
+        reported as a failing input."""
+        run = case['history'][j]
+        cf, q = run['cfg'], run['queries'][k]
+        w = win_of(cf)
+        poss = [x[2] for x in read_sites(q[1])] if q[0] == 2 else [q[2]]
+        if win_valid(w) and all(in_win(w, p_) for p_ in poss):
+            return True
+        ea = lambda c_: (not is_lazy(c_)) and c_['chrom'] is None
+        scope = lambda c_, ct: is_lazy(c_) or c_['chrom'] is None or c_['chrom'] == ct
+        contigs = set(x[1] for x in read_sites(q[1])) if q[0] == 2 else {q[1]}
+        for j2, (run2, got2) in enumerate(zip(case['history'], r['runs'])):
+            cf2 = run2['cfg']
+            if j2 == j or win_of(cf2) != w or not same_sem(cf, cf2) or ea(cf2) != ea(cf) or (got2 and got2[0] == 'RAISE'):
+                continue
+            if any(scope(cf, ct) != scope(cf2, ct) for ct in contigs):
+                continue
+            if cf2['cache'] and cf2.get('rstart') is not None and any(p_ < cf2['rstart'] for p_ in poss):
+                continue                  # recorded: window:long-REF-before-region_start
+            g2 = canon_impl_run(got2)
+            if any(q2 == q and g2[k2] != got for k2, q2 in enumerate(run2['queries']) if k2 < len(g2)):
+                return True
+        return False
 
     def failing(self, case, r):
         fa = self.failing_all(case, r)
@@ -1533,8 +2066,8 @@ class Prop(fw.PropBase):
                 yield {'vcf': dict(c['vcf'], records=recs[:k] + recs[k + 1:]), 'history': h}
             for j in range(len(h)):
                 cf = h[j]['cfg']
-                for f, v in (('ignore', None), ('select', None), ('chrom', None), ('phased', True)):
-                    if cf[f] != v:
+                for f, v in (('ignore', None), ('select', None), ('chrom', None), ('phased', True), ('rstart', None), ('rend', None)):
+                    if cf.get(f) != v:
                         yield {'vcf': c['vcf'], 'history': h[:j] + [dict(h[j], cfg=dict(cf, **{f: v}))] + h[j + 1:]}
         def keys_of(c, r):
             ks = set()
@@ -1564,8 +2097,15 @@ class Prop(fw.PropBase):
         mode = ('use_cache' if cf['cache'] else '') + ('+lazyLoad' if cf['lazy'] else '') or 'eager'
         where = 'reads' if q[0] == 2 else ('absent-contig' if q[1] not in case['vcf']['contigs'] else 'site')
         key = '%s:%s:%s' % (['getAllelesAt', 'has_location', 'getAllele'][q[0]], mode, where)
+        if has_window(cf):
+            w = win_of(cf)
+            key += ':region-' + ('unacceptable' if not win_valid(w) else 'reads' if q[0] == 2 else 'inside' if in_win(w, q[2])
+                                 else 'outside(another mode answers differently)')
         what = ('run %d of %d [%s]: call %d %s returned %s; the VCF demands %s'
                 % (j + 1, len(case['history']), flags(cf), k + 1, describe_query(q), show_answer(got), show_answer(exp)))
+        if has_window(cf) and not key.endswith('inside'):
+            what = what.replace('the VCF demands', 'the records this run can see demand') + \
+                ' (and another run of the history with the same settings and window answers this call differently)'
         return key, what
 
     def search(self):
@@ -1577,6 +2117,13 @@ class Prop(fw.PropBase):
             corpus, rnd, exh = self.make_cases()
             cases = corpus + rnd + exh
             res = run_impl_cases(cases)
+        if getattr(self, 'wcases', None) is None:
+            # the stream with region_start / region_end was not reached (the correspondence stopped before it)
+            wr, we = self.make_window_cases()
+            self.wcases = wr + we
+            self.wres = run_impl_cases(self.wcases)
+            cases = list(cases) + self.wcases
+            res = list(res) + self.wres
         HD = ':only-after-earlier-runs-on-the-same-cache-dir'
         fails = []
         for c, r in zip(cases, res):
